@@ -1,0 +1,47 @@
+// SPDX-FileCopyrightText: 2022-present Intel Corporation
+//
+// SPDX-License-Identifier: Apache-2.0
+
+//go:build verif
+
+// Contracts for the deductive verifier in /verif (govc). Comment-only: this file contains no code
+// and is excluded from every build that does not set the "verif" tag.
+
+package configuration
+
+//@ import configapi "github.com/onosproject/onos-api/go/onos/config/v3"
+
+// C15, write half: the store implementation over the atomix primitive. Every update is conditional on
+// the version the caller read (guards of the assumed contracts in /verif/contracts/lib/atomix.spec),
+// versions and revisions only grow, a record that was never read cannot be written, and the write
+// goes to the record's own key.
+//@ func (*configurationStore).Update(s, ctx, configuration) (err)
+//@   props C15
+//@   requires s != nil && s.configurations != nil && configuration != nil
+//@   ensures {C15} version-and-revision-grow: err == nil ==> configuration.Version > old(configuration.Version) && configuration.Revision == old(configuration.Revision) + 1
+//@   ensures {C15} unread-record-refused: old(configuration.Version) == 0 || old(configuration.Revision) == 0 ==> err != nil && condWrites == old(condWrites)
+//@   ensures {C15} one-conditional-write-to-own-key: condWrites <= old(condWrites) + 1 && inserts == old(inserts) && (condWrites > old(condWrites) ==> lastWriteKey == configuration.Key) && (err == nil ==> condWrites == old(condWrites) + 1)
+//@ func (*configurationStore).UpdateStatus(s, ctx, configuration) (err)
+//@   props C15
+//@   requires s != nil && s.configurations != nil && configuration != nil
+//@   ensures {C15} version-grows-revision-kept: err == nil ==> configuration.Version > old(configuration.Version) && configuration.Revision == old(configuration.Revision)
+//@   ensures {C15} unread-record-refused: old(configuration.Version) == 0 || old(configuration.Revision) == 0 ==> err != nil && condWrites == old(condWrites)
+//@   ensures {C15} one-conditional-write-to-own-key: condWrites <= old(condWrites) + 1 && inserts == old(inserts) && (condWrites > old(condWrites) ==> lastWriteKey == configuration.Key) && (err == nil ==> condWrites == old(condWrites) + 1)
+//@ func (*configurationStore).Create(s, ctx, configuration) (err)
+//@   props C15
+//@   requires s != nil && s.configurations != nil && configuration != nil
+//@   ensures {C15} only-new-records-are-created: old(configuration.Version) != 0 || old(configuration.Revision) != 0 ==> err != nil && inserts == old(inserts)
+//@   ensures {C15} created-record-is-versioned: err == nil ==> configuration.Revision == 1 && configuration.Version > 0 && inserts == old(inserts) + 1 && lastWriteKey == configuration.Key
+//@   ensures {C15} create-never-overwrites: condWrites == old(condWrites) && inserts <= old(inserts) + 1
+
+// the per-configuration value maps (committed/applied path values) are separate primitives: their
+// handling is not verified; these helpers do not touch the configuration record or the ghosts
+//@ func (*configurationStore).getCommitted(s, ctx, id) (m, err)
+//@   trusted
+//@   modifies nothing
+//@ func (*configurationStore).getApplied(s, ctx, id) (m, err)
+//@   trusted
+//@   modifies nothing
+//@ func (*configurationStore).store(s, ctx, store, values) (err)
+//@   trusted
+//@   modifies nothing
